@@ -1159,8 +1159,14 @@ func (e *Env) call(x *ast.CallExpr) *Val {
 	if sym, ok := e.recs[name]; ok && len(x.Args) == 1 {
 		return &Val{T: "(" + sym + " " + argv(0).T + ")", Ty: intT}
 	}
-	// predicates defined with `pred`
-	if pr, ok := fx.eng.specs.Preds[name]; ok && e.depth < 20 {
+	// predicates defined with `pred` (one global namespace; a package qualifier is accepted and ignored)
+	predName := name
+	if _, ok := fx.eng.specs.Preds[predName]; !ok {
+		if i := strings.LastIndex(predName, "."); i >= 0 {
+			predName = predName[i+1:]
+		}
+	}
+	if pr, ok := fx.eng.specs.Preds[predName]; ok && e.depth < 20 {
 		if len(pr.Params) != len(x.Args) {
 			return e.errorf("pred %s expects %d arguments", name, len(pr.Params))
 		}
@@ -1237,10 +1243,10 @@ func (e *Env) call(x *ast.CallExpr) *Val {
 			nErr := len(*e.errs)
 			recv := e.eval(sel.X)
 			if len(*e.errs) == nErr && recv != nil && recv.Ty != nil {
-				t := recv.Ty
+				t := types.Unalias(recv.Ty)
 				ptr := ""
 				if p, ok := t.(*types.Pointer); ok {
-					t = p.Elem()
+					t = types.Unalias(p.Elem())
 					ptr = "*"
 				}
 				if n, ok := t.(*types.Named); ok && n.Obj().Pkg() != nil {
@@ -1296,6 +1302,17 @@ func (e *Env) call(x *ast.CallExpr) *Val {
 				*e.errs = (*e.errs)[:nErr]
 			}
 		}
+	}
+	if name == "path.Join" || name == "filepath.Join" {
+		// the symbol the code gets for a Join of a fixed number of operands (plainVariadic)
+		var args []*Val
+		for i := range x.Args {
+			args = append(args, argv(i))
+		}
+		fx.pureInline = true
+		v := fx.pureCall(e.st, "pf$"+sanitize(name)+"$v", args, types.Typ[types.String])
+		fx.pureInline = false
+		return v
 	}
 	if name == "fmt.Sprintf" && len(x.Args) >= 1 {
 		// the symbol the code gets for a Sprintf whose operands are plain basic values (plainVariadic)
@@ -1459,7 +1476,7 @@ func (fx *FuncCtx) unchangedTerm(now, pre *State, except ...string) string {
 	}
 	sort.Strings(names)
 	for _, c := range names {
-		if strings.HasPrefix(c, "G$rd_pos") || strings.HasPrefix(c, "G$it_") || strings.HasPrefix(c, "G$put_") || strings.HasPrefix(c, "G$get_") || strings.HasPrefix(c, "G$part_") || strings.HasPrefix(c, "G$lp_") || strings.HasPrefix(c, "G$dm_") || strings.HasPrefix(c, "G$br_src") || strings.HasPrefix(c, "G$hdr_") || strings.HasPrefix(c, "RV$") {
+		if strings.HasPrefix(c, "G$rd_pos") || strings.HasPrefix(c, "G$it_") || strings.HasPrefix(c, "G$put_") || strings.HasPrefix(c, "G$get_") || strings.HasPrefix(c, "G$part_") || strings.HasPrefix(c, "G$lp_") || strings.HasPrefix(c, "G$dm_") || (strings.HasPrefix(c, "G$br_src") || logGhost(c)) || strings.HasPrefix(c, "G$hdr_") || strings.HasPrefix(c, "RV$") {
 			continue // stream cursors, iterators, the ghost call log and iteration bookkeeping are not stored state
 		}
 		t := now.Heap[c]
